@@ -29,14 +29,15 @@ CLAIM = dict(
 RULE = (
     "cases = (orbit, source form S, target form T) for all orbits of the alphabet product and all ordered pairs, plus "
     "(orbit, S, X, T) walks and (orbit, S, infos attribute); every orbit differs from every other in at least one "
-    "alphabet coordinate, hence distinct by construction. non-trivial = S != T (at least one edge function runs); "
-    "for walks the non-trivial key is (orbit, S, X) with X != S (10 targets evaluated under one key)."
+    "alphabet coordinate, hence distinct by construction. non-trivial = S != T resp. X != S (at least one edge function "
+    "runs); to bound memory the non-trivial key is (part, orbit, S): the 9-10 targets / 17 attributes of one source "
+    "form are counted under one key, every one of them is an evaluation."
 )
 BOUNDS = {
     "quick": "4 bodies x 13 e x 5 i x 2 node x 2 perigee x 5 (ellipse) / 6 (hyperbola) anomalies: all 100/81 pairs, "
     "setter, back conversion, infos in every source form; all 1000/729 walks on the sub-product with 2 bodies",
-    "thorough": "full alphabets 4 bodies x 13 e x 5 i x 4 node x 4 perigee x 9 (ellipse) / 10 (hyperbola) anomalies for "
-    "pairs/setter/back/infos; all walks on 4 bodies x 13 e x 5 i x 2 x 2 x 5/6 anomalies",
+    "thorough": "full alphabets 4 bodies x 13 e x 5 i x 4 node x 4 perigee x 9 (ellipse) / 10 (hyperbola) anomalies "
+    "(40 000 orbits) for pairs/setter/back/infos and for all walks",
 }
 ASSUMPTIONS = [
     "element definitions are those documented in beyond/orbits/forms.py (equatorial spherical form, l = true longitude, "
@@ -69,13 +70,20 @@ M_HYP = [0.5, -0.5, 4.0, -4.0, 20.0, -20.0, 200.0, -200.0, 1000.0, -1000.0]
 
 QUICK = dict(node=[1.0, 6.0], peri=[0.7, 5.5], m_ell=[-3.0, 0.0, 0.5, 3.3, 7.5], m_hyp=[0.5, -4.0, 20.0, -200.0, 200.0, 1000.0])
 
-# tolerances (relative, in units of |r| and |v| of the reference state), multiplied by the conditioning of the
-# near-parabolic energy integral cond = 1 + 1/|1-e|: a = -mu/(2K) loses 2a/r = 2/|1-e| digits at perigee and every
-# anomaly -> position map has slope <= 1/|1-e|.  Round-off 1.1e-16 x about 50 floating point operations per edge x
-# up to 12 edges on a two-leg walk = 7e-14 -> 1e-12 leaves an order of magnitude.
-TOL_CART = 1e-12
-TOL_ELEM = 1e-12  # element-wise, relative to the natural scale of the element, x cond x element conditioning
-TOL_INFO = 1e-12
+# Tolerances (relative, in units of |r| and |v| of the reference state) = conditioning x round-off:
+#  * near-parabolic conditioning cond = 1 + 1/|1-e| (DESIGN.md): a = -mu/(2K) loses 2a/r = 2/|1-e| digits at
+#    perigee and every anomaly -> position map has slope <= 1/|1-e|;
+#  * near-circular: the quantifier's lower bound e >= 1e-4 admits an absolute error of eps/e = 1e-12 on e (the energy /
+#    angular-momentum formulation cancels 1 - (1 - e^2)), i.e. 1e-12 |r|; a walk has up to 12 edges -> 1e-10
+#    leaves a factor 10-50 on the unchanged tree (observed maximum/tolerance 0.02-0.05);
+#  * hyperbolas: a state given by its true anomaly has conditioning dr/r = e sin(nu)/(1 + e cos nu) d(nu)
+#    ~ |M|/(e^2-1) d(nu) near the asymptote (|M| <= 1000 here) -> one more decade: 1e-9 (DESIGN.md value).
+TOL_CART = {"ell": 1e-10, "hyp": 1e-9}
+TOL_ELEM = {"ell": 1e-10, "hyp": 1e-9}  # element-wise, relative to the natural scale of the element x cond x element conditioning
+TOL_INFO = {"ell": 1e-10, "hyp": 1e-9}
+# quantities that depend on the energy / radius only (no e, no anomaly): conditioning cond x a few ulp
+TOL_INFO_A = 1e-11
+INFO_A_ONLY = ("r", "v", "energy", "n", "vinf", "dinf")
 
 _W = {}
 
@@ -88,7 +96,7 @@ def _forms():
 
 def orbit_list(tier, part):
     """Deterministic list of orbit tuples (body, e, i, Om, w, M)."""
-    if tier == "quick" or part == "walk":
+    if tier == "quick":
         node, peri, m_ell, m_hyp = QUICK["node"], QUICK["peri"], QUICK["m_ell"], QUICK["m_hyp"]
     else:
         node, peri, m_ell, m_hyp = NODE, PERI, M_ELL, M_HYP
@@ -107,7 +115,7 @@ def orbit_list(tier, part):
 def units(tier, seed):
     cfg = {"frames": "c01"}
     u = []
-    for part, nunits in (("pair", 48), ("walk", 80)):
+    for part, nunits in (("pair", 48), ("walk", 80)) if tier == "quick" else (("pair", 96), ("walk", 224)):
         orbits = orbit_list(tier, part)
         # hyperbolic orbits with large |M| are slower (Newton from a far start value): deal round-robin
         for k in range(nunits):
@@ -231,6 +239,15 @@ def elem_err(R, form, six):
     return worst, wj
 
 
+def _margin(t, name, value, tol, case):
+    """Tolerance-adequacy statistics over the PASSING cases (a failing case is reported by t.fail and would
+    otherwise hide how close the correct cases come to the tolerance)."""
+    ok = value <= tol
+    if ok:
+        t.margin(name, value, tol, case)
+    return ok
+
+
 def _finite(x):
     return bool(np.all(np.isfinite(x)))
 
@@ -260,10 +277,10 @@ def localise(R, start, target):
         if not _finite(arr):
             return f"edge/{a.name}->{b.name}/{R['conic']}/non-finite"
         er, ev = cart_err(R, b.name, arr)
-        if not (max(er, ev) <= TOL_CART * R["cond"]):
+        if not (max(er, ev) <= TOL_CART[R['conic']] * R["cond"]):
             return f"edge/{a.name}->{b.name}/{R['conic']}/wrong-state"
         ee, j = elem_err(R, b.name, arr)
-        if not (ee <= TOL_ELEM * R["cond"]):
+        if not (ee <= TOL_ELEM[R['conic']] * R["cond"]):
             return f"edge/{a.name}->{b.name}/{R['conic']}/element-{j}"
         cur = nxt
     return None
@@ -287,15 +304,15 @@ def convert_checked(R, src, T, t, clause, case, what):
         t.fail(sig, clause, case, R["expected"][T], arr, f"{what}: {src.form.name}->{T} gives non-finite numbers")
         return None
     er, ev = cart_err(R, T, arr)
-    tol = TOL_CART * R["cond"]
-    ok = t.margin(f"{what}: position+velocity vs reference [rel/cond]", max(er, ev), tol, case)
+    tol = TOL_CART[R['conic']] * R["cond"]
+    ok = _margin(t, f"{what}: position+velocity vs reference [rel/cond]", max(er, ev), tol, case)
     ee, j = elem_err(R, T, arr)
-    ok2 = t.margin(f"{what}: elements vs textbook definition [rel/cond]", ee, TOL_ELEM * R["cond"], case)
+    ok2 = _margin(t, f"{what}: elements vs textbook definition [rel/cond]", ee, TOL_ELEM[R['conic']] * R["cond"], case)
     if not (ok and ok2):
         sig = localise(R, src, T) or f"walk/{src.form.name}->{T}/{R['conic']}/wrong-state"
         t.fail(sig, clause, case, R["expected"][T], arr,
                f"{what}: {src.form.name}->{T} |dr|/r={er:.3e} |dv|/v={ev:.3e} (tol {tol:.1e}); worst element #{j} off by "
-               f"{ee:.3e} x scale (tol {TOL_ELEM * R['cond']:.1e})")
+               f"{ee:.3e} x scale (tol {TOL_ELEM[R['conic']] * R['cond']:.1e})")
         return None
     return out
 
@@ -310,7 +327,7 @@ def check_pair(orb, S, T, t):
     src = _sv(R, S, R["nums"][S])
     t.states_add(1)
     x = convert_checked(R, src, T, t, "every form's six numbers equal their textbook definitions / conversion keeps position and velocity", case, "S->T")
-    t.ev(("pair",) + tuple(orb) + (S, T) if S != T else None)
+    t.ev(("pair",) + tuple(orb) + (S,) if S != T else None)
     t.outcome((S, T, R["conic"], m2e_branch(R["e"], orb[5])))
     if x is None:
         return None
@@ -347,6 +364,18 @@ def check_infos(orb, S, t):
     cond = R["cond"]
     sv = _sv(R, S, R["nums"][S])
     infos = sv.infos
+    # Infos works on its own keplerian / spherical copies: when those conversions are already wrong (reported
+    # by the pair check under the edge's signature) the derived quantities are not examined
+    for f in ("keplerian", "spherical"):
+        try:
+            arr = np.array(infos.kep if f == "keplerian" else infos.sphe, dtype=float)
+            bad = not _finite(arr) or not max(cart_err(R, f, arr)) <= TOL_CART[R["conic"]] * cond
+        except Exception:
+            bad = True
+        t.trans()
+        if bad:
+            t.note("infos not examined: underlying form conversion already reported by the pair check", 1)
+            return
     from beyond.frames.frames import get_frame
 
     body_r = float(get_frame(R["frame"]).center.body.r)
@@ -373,7 +402,7 @@ def check_infos(orb, S, t):
             t.fail(f"Infos.{name}/raises/{R['conic']}", clause, case, exp.get(name, [None])[0], repr(ex))
             continue
         t.trans()
-        t.ev(("infos",) + tuple(orb) + (S, name))
+        t.ev(("infos",) + tuple(orb) + (S,))
         if name == "type":
             want = "elliptic" if R["conic"] == "ell" else "hyperbolic"
             if val != want:
@@ -382,9 +411,9 @@ def check_infos(orb, S, t):
         if name == "period":
             # timedelta: resolution 1 microsecond
             got = val.total_seconds()
-            tol = TOL_INFO * cond * 1.5 * exp[name][1] + 1e-6
+            tol = TOL_INFO_A * cond * 1.5 * exp[name][1] + 1e-6
             d = abs(got - exp[name][0])
-            if not t.margin("infos.period [s, tol = 1e-12 cond P + 1 us]", d, tol, case):
+            if not _margin(t, "infos.period [s, tol = 1.5e-11 cond P + 1 us]", d, tol, case):
                 t.fail(f"Infos.period/value/{R['conic']}", clause, case, exp[name][0], got, f"period off by {d:.3e} s")
             continue
         got = float(val)
@@ -394,12 +423,8 @@ def check_infos(orb, S, t):
             t.fail(f"Infos.{name}/non-finite/{nu0}", clause, case, want, repr(got), f"infos.{name} = {got!r} (expected {want:.12g})")
             continue
         d = abs(got - want) / scale
-        if name in ("fpa", "cos_fpa", "sin_fpa"):
-            # angle between r and v from r.v and |r x v|: conditioning 1 (atan2), energy conditioning through p, e
-            tol = TOL_INFO * cond * max(1.0, 1 / R["e"])
-        else:
-            tol = TOL_INFO * cond
-        if not t.margin(f"infos.{name} [rel/cond]", d, tol, case):
+        tol = (TOL_INFO_A if name in INFO_A_ONLY else TOL_INFO[R['conic']]) * cond
+        if not _margin(t, f"infos.{name} [rel/cond]", d, tol, case):
             t.fail(f"Infos.{name}/value", clause, case, want, got, f"infos.{name} = {got!r}, defining relation gives {want!r} (rel {d:.3e}, tol {tol:.1e})")
     t.outcome(("infos", S, R["conic"]))
 
@@ -419,13 +444,13 @@ def check_walks(orb, S, X, t, first=None):
         if not _finite(arr):
             return
         er, ev = cart_err(R, X, arr)
-        if not max(er, ev) <= TOL_CART * R["cond"]:
+        if not max(er, ev) <= TOL_CART[R['conic']] * R["cond"]:
             return  # first leg already wrong: reported by the pair check
     for T in R["forms"]:
         c = dict(case, T=T)
         convert_checked(R, first, T, t, "same position and velocity whichever intermediate forms are traversed", c, "S->X->T")
         t.states_add(1)
-    t.ev(("walk",) + tuple(orb) + (S, X) if X != S else None, n=len(R["forms"]))
+    t.ev(("walk",) + tuple(orb) + (S,) if X != S else None, n=len(R["forms"]))
 
 
 # ---------------------------------------------------------------------------
